@@ -496,7 +496,10 @@ def size_constants():
           found.add(node.value)
   except (OSError, SyntaxError):
     pass
-  consts = sorted(found | set(BASE_SIZE_CONSTS))
+  found = sorted(found - set(BASE_SIZE_CONSTS))
+  if len(found) > 10:                    # never let a source full of literals crowd out the random arms
+    found = found[::-(-len(found) // 10)]
+  consts = sorted(set(found) | set(BASE_SIZE_CONSTS))
   _SIZE_CONSTS.append(consts)
   return consts
 
@@ -504,9 +507,13 @@ def size_constants():
 _CONS = 'bcdfghjklm'
 
 
+N_WWORDS = 10000
+
+
 def wword(i):
-  """distinct all-letter words (1000 of them), disjoint from VOCAB"""
-  return 'w' + _CONS[i // 100 % 10] + _CONS[i // 10 % 10] + _CONS[i % 10]
+  """distinct all-letter words (N_WWORDS of them), disjoint from VOCAB"""
+  assert 0 <= i < N_WWORDS
+  return 'w' + _CONS[i // 1000 % 10] + _CONS[i // 100 % 10] + _CONS[i // 10 % 10] + _CONS[i % 10]
 
 
 def witem(j, n):
@@ -542,7 +549,7 @@ def gen_bloomer_batches(rng, cfg, c, forward=None, extra=None):
   lo = rng.randrange(1, hi)
   B = hi // lo + 1 + rng.choice([0, 0, 1])
   nb = rng.randrange(1, k + 1)
-  ids = list(range(1000))
+  ids = list(range(N_WWORDS))
   rng.shuffle(ids)                       # alphabetical rank of bloomers / commons / fillers is random
   bloom, common, fill = ids[:nb], ids[nb:nb + ncommon], ids[nb + ncommon:]
   batches = []
@@ -551,7 +558,7 @@ def gen_bloomer_batches(rng, cfg, c, forward=None, extra=None):
     if b == 0:
       items += [j for j in common for _ in range(hi)]
     else:
-      nf = rng.choice([0, max(1, cut // 2), cut + 1])
+      nf = min(rng.choice([0, max(1, cut // 2), cut + 1]), len(fill))
       rep = rng.choice([1, 1, hi])
       items += [fill.pop() for _ in range(nf)] * rep
     rng.shuffle(items)
@@ -577,7 +584,7 @@ def gen_zipf_batches(rng, cfg, c):
   tail of another), 2-4 batches of short texts."""
   cut = c * cfg['k']
   V = min(900, cut * rng.choice([2, 3]) + rng.randrange(2, 7))
-  ws = [wword(i) for i in rng.sample(range(1000), V)]
+  ws = [wword(i) for i in rng.sample(range(N_WWORDS), V)]
   shift = rng.randrange(1, V)
   batches = []
   per = max(12, min(60, V))
@@ -599,7 +606,7 @@ def gen_wide_batch(rng, cfg, c):
   cut = c * k
   width = cut + rng.choice([1, 1, 2, 4])
   w0 = rng.randrange(5) * (cut + 4)
-  items = [w0 + i for i in range(width) for _ in range(3)] + [990 + j for j in range(k) for _ in range(2)]
+  items = [w0 + i for i in range(width) for _ in range(3)] + [N_WWORDS - 1 - j for j in range(k) for _ in range(2)]
   rng.shuffle(items)
   return [_decorate(rng, witem(j, n)) for j in items]
 
@@ -1231,7 +1238,11 @@ class C01:
           '(with empty batches/shards sprinkled in), all-empty corners, then random (metric, k, n, flags / pattern sets, '
           '1-4 shards x 0-3 batches x 0-4 texts, random binary merge tree or one merge_states call in shuffled order, '
           'object API or AggregateFn API) and ~8% malformed; oracle = result of the merged shards vs one accumulator fed '
-          'everything in one batch on the real code; non-trivial = at least 2 batches and a non-empty result')
+          'everything in one batch on the real code; non-trivial = at least 2 batches and a non-empty result.  (SC07c) plus '
+          'wide-vocabulary multi-batch n-gram streams: state-size constants c = int literals of aggregates/text.py + utils.py '
+          '(ast, at run time) united with 1 and 10, vocabulary straddling c*k (cut-1 .. cut+5, 2-3x), "late bloomer" arm (k '
+          'n-grams below the cut in the first batch that are the global top; forward / reversed / shuffled batch order) and '
+          'drifting-Zipf arm, dealt to 1-3 shards; coverage labels from textbook prefix counts only')
   run_impl = staticmethod(run_impl)
   model_requests = staticmethod(model_requests)
   model_obs = staticmethod(model_obs)
@@ -1289,7 +1300,11 @@ class C07:
           'newlines, NBSP, non-ASCII letters, empty / blank texts) and random pattern sets incl. regex metacharacters, '
           'avg_alphabetical_char_count, and ~8% malformed; oracle = brute-force definitions (character scan, position '
           'counting, exact Fractions, code-point order) for result(), add() return values, AggregateFn.__call__ and the '
-          'one-shot functions; non-trivial = at least 2 texts and a non-empty result')
+          'one-shot functions; non-trivial = at least 2 texts and a non-empty result.  (SC07c) plus wide-vocabulary multi-batch '
+          'n-gram streams (constants c read off the source by ast, united with 1 and 10; vocabulary straddling c*k; late-bloomer '
+          'and drifting-Zipf arms) through EVERY accumulation path - one accumulator fed batch by batch | per-batch accumulators '
+          'merged pairwise | one merge_states call in shuffled order | __call__ and the function on the concatenation - each '
+          'compared with the definition over all raw texts')
   run_impl = staticmethod(run_impl)
   model_requests = staticmethod(model_requests)
   model_obs = staticmethod(model_obs)
